@@ -505,7 +505,7 @@ def h_string(eng):
     body = eng.fresh_str("body")
     text = z3.Concat(z3.StringVal('"'), body, z3.StringVal('"'))
     eng.input("string_body", body)
-    c = ctx(eng, P, "Primary_string", getText=text)
+    c = ctx(eng, P, "Primary_string", getText=text, STRING=Tok(text))      # the rule is its one STRING token
     call(eng, L, "exitPrimary_string", c)
     eng.cover("string")
     node = get_ast(eng, L, c)
